@@ -899,20 +899,40 @@ Proof.
     rewrite H in *; discriminate.
 Qed.
 
+Lemma lr0_rel_ext g K1 K2 : (forall i, In i K1 -> In i K2) ->
+  forall p d, lr0_closure_rel g K1 p d -> lr0_closure_rel g K2 p d.
+Proof.
+  intros HK p d H. induction H as [p d la Hin | p d r q Hpar IH Hnth Hq Hlq].
+  - exact (c0_base g K2 p d la (HK _ Hin)).
+  - exact (c0_step g K2 p d r q IH Hnth Hq Hlq).
+Qed.
+
+Lemma lr1_rel_ext g K1 K2 : (forall i, In i K1 -> In i K2) ->
+  forall p d a, lr1_closure_rel g K1 p d a -> lr1_closure_rel g K2 p d a.
+Proof.
+  intros HK p d a H.
+  induction H as [p d la a Hin Ha | p d r q b Hpar Hnth Hq Hlq Hf | p d a r q Hpar IH Hnth Hq Hlq Hn].
+  - exact (c1_base g K2 p d la a (HK _ Hin) Ha).
+  - exact (c1_first g K2 p d r q b (lr0_rel_ext g K1 K2 HK p d Hpar) Hnth Hq Hlq Hf).
+  - exact (c1_null g K2 p d a r q IH Hnth Hq Hlq Hn).
+Qed.
+
 Lemma close_mirror_order_insensitive : close_mirror_order_insensitive_stmt.
 Proof.
-  intros g nl fs K keys1 keys2 fuel1 fuel2 C1 C2 Hp1 Hp2 H1 H2.
-  pose proof (close_mirror_sound g nl fs keys1 K fuel1 C1 Hp1 H1) as S1.
-  pose proof (close_mirror_sound g nl fs keys2 K fuel2 C2 Hp2 H2) as S2.
-  destruct (close_mirror_complete g nl fs keys1 K fuel1 C1 Hp1 H1) as [A1 B1].
-  destruct (close_mirror_complete g nl fs keys2 K fuel2 C2 Hp2 H2) as [A2 B2].
+  intros g nl fs K1 K2 keys1 keys2 fuel1 fuel2 C1 C2 HK Hp1 Hp2 H1 H2.
+  assert (HK12 : forall i, In i K1 -> In i K2) by (intros i; apply HK).
+  assert (HK21 : forall i, In i K2 -> In i K1) by (intros i; apply HK).
+  pose proof (close_mirror_sound g nl fs keys1 K1 fuel1 C1 Hp1 H1) as S1.
+  pose proof (close_mirror_sound g nl fs keys2 K2 fuel2 C2 Hp2 H2) as S2.
+  destruct (close_mirror_complete g nl fs keys1 K1 fuel1 C1 Hp1 H1) as [A1 B1].
+  destruct (close_mirror_complete g nl fs keys2 K2 fuel2 C2 Hp2 H2) as [A2 B2].
   split.
   - intros p d. split; intros (la & Hin).
-    + apply A2. exact (proj1 (S1 _ _ _ Hin)).
-    + apply A1. exact (proj1 (S2 _ _ _ Hin)).
+    + apply A2. apply (lr0_rel_ext g K1 K2 HK12). exact (proj1 (S1 _ _ _ Hin)).
+    + apply A1. apply (lr0_rel_ext g K2 K1 HK21). exact (proj1 (S2 _ _ _ Hin)).
   - intros p d a. split; intros (la & Hin & Ha).
-    + apply B2. exact (proj2 (S1 _ _ _ Hin) a Ha).
-    + apply B1. exact (proj2 (S2 _ _ _ Hin) a Ha).
+    + apply B2. apply (lr1_rel_ext g K1 K2 HK12). exact (proj2 (S1 _ _ _ Hin) a Ha).
+    + apply B1. apply (lr1_rel_ext g K2 K1 HK21). exact (proj2 (S2 _ _ _ Hin) a Ha).
 Qed.
 
 (* ---- goto ---------------------------------------------------------------------------------------- *)
